@@ -248,456 +248,583 @@ Ack // c183a
 }
     // c185
 ")).
-Eval vm_compute in ("<<<M1517>>>" ++ check (runes_of_ascii "packet o {
-    @leftPad(
-            )
-    @tag(00)
-    int16 int @lengthOf(Header) `
-        `,
-    @leftPad(
-        '\x00')
-    char[00] body @lengthOf(a1) `" ++ [28040; 24687; 31867; 22411]%N ++ runes_of_ascii "`,
+Eval vm_compute in ("<<<M309>>>" ++ check (runes_of_ascii "
+MetaData Logon{zchar[ 7
+    ] BodyLength , char Header ,
+    // @lengthOf(
+    int8
+    x_y_z// @lengthOf(
+`u8 x,`
+, i32 falsey , //
+int16 lengthOf`two words`
+, } root packet options1 { repeat	A BodyLength
+,
+metadata { u64 calculatedFrom `` , } ,
+body { i16
+    matchKey ,	uint16
+packetx
+    `// not a comment` ,
+a1 // 50% %s
+`` ,repeat packetx
+    // " ++ [27880; 37322]%N ++ runes_of_ascii "
+    ,
+}  , body	u8x `a\`	, @tag(
+10
+    ) @tag(00 )
+    // c
+    @rightPad('\x00' ) repeat tag { i16 u
+    `" ++ [233]%N ++ runes_of_ascii "`, }
+,
+// a // b
+// c
+@lengthOf(u )@calculatedFrom( """ ++ [128512]%N ++ runes_of_ascii """ ) i16 falsey  ,
+    f32a	@lengthOf(
+uint8x )
+    `it's`, asx
+    @lengthOf(// 50% %s
+Header )`two words` ,
+    // `tick` ""quote"" 'q'
+    @lengthOf( A//
+)@lengthOf( int ) @calculatedFrom(
+    ""1"")
+    char[] uint8x , x_y_z @lengthOf( Foo)
+`crlf
+line` ,
+    } packet// @lengthOf(
+stringy{ repeat  string len , @calculatedFrom(
+    ""{,}"" )
+    repeat
+    o//
+{ u64 float , } ,
+    match	i64_ as
+    Pad
+{
+[ 1 ] :	roots , ""it's""
+    // packet A { u8 x, }
+    : // @lengthOf(
+uint8x 1 :
+    MetaDataX ,[255 ,
+""a\""b""  , // `tick` ""quote"" 'q'
+""" ++ [233]%N ++ runes_of_ascii "t" ++ [233]%N ++ runes_of_ascii """ //	t
+, 65535 ,4294967296 , 7 , 0123456789
+] :len
+, 255 : metadata
+, ""it's"" :calculatedFrom ,
+    // `tick` ""quote"" 'q'
+    }, @lengthOf( msg_type )
+falsey @calculatedFrom( """ ++ [28040; 24687]%N ++ runes_of_ascii """
+) ,	repeat char[] trueish , zchar[ 1 ]A ,// `tick` ""quote"" 'q'
+repeat metadata {zchar[
+// c
+//x
+7 ]	Pad  , }	,
+    @tag( 3//
+) i32 body
+`u8 x,` , } // trailing space ")).
+Eval vm_compute in ("<<<M1455>>>" ++ check (runes_of_ascii "packet x {
 }
 
-packet roots {
-    Logon `crlf
+options {
+    Packet = string
+    Packet = ' '
+    zchar = false;
+    matchKey = false
+}
+
+packet f32a {
+    int64 options1 @calculatedFrom(""packet"") `// not a comment`,
+    Z9_ {
+        charz {
+            match BodyLength as trueish {
+                ""\" ++ [233]%N ++ runes_of_ascii """ : charz,
+                65535 : roots,
+                [4294967296, ""a\""b"", ""abc""] : f32a,
+                ""\" ++ [233]%N ++ runes_of_ascii """ : int,
+                // packet A { u8 x, }
+                ""x y"" : u8x,
+            },
+            repeat int8 u,
+            repeat _x {
+                msg_type `100% of %d`,
+                metadata `crlf
+                line`,
+                f32 roots,
+                char[] f32a @lengthOf(Pad),// c
+            },
+        },
+    },
+    match T as calculatedFrom {
+        [0, """ ++ [128512]%N ++ runes_of_ascii """] : Pad,
+        // packet A { u8 x, }
+        [
+            """", ""x y"", """ ++ [233]%N ++ runes_of_ascii "t" ++ [233]%N ++ runes_of_ascii """, ""a\""b"", 4294967296,
+            """ ++ [28040; 24687]%N ++ runes_of_ascii """
+        ] : o,
+        [42] : float,
+    },
+    match zchar as _x {
+        ""`tick`"" : packetx,
+    },
+    // 50% %s
+    repeat As {
+        int @lengthOf(msg_type),
+        i64 roots `line1
+        line2`,// c
+        repeat u16 Packet `" ++ [233]%N ++ runes_of_ascii "`,
+        f64 charz,
+    },
+    int32 i8i8 `say ""hi""`,
+}")).
+Eval vm_compute in ("<<<M1594>>>" ++ check (runes_of_ascii "  options	{ i8i8 
+= 
+	    // " ++ [27880; 37322]%N ++ runes_of_ascii "
+float64	//
+  ; pack = ""// no comment"" ;
+
+    len
+
+= zchar[
+	42] ;
+A =
+    65535
+
+    //	t
+    	;
+
+    BodyLength =
+
+255 ; 
+}root packet
+uint8x
+{
+	@tag( 255
+) @calculatedFrom(  /// triple
+	""a\""b"")
+
+@leftPad
+( 
+)  string i64_
+, }
+root
+	packet	tag
+
+{char[]  BodyLength
+
+    , tag
+
+    {repeat zchar[ 10
+	]	roots
+`" ++ [28040; 24687; 31867; 22411]%N ++ runes_of_ascii "` 
+,},
+    BodyLength
+	{
+        // `tick` ""quote"" 'q'
+  repeat 
+msg_type
+    {
+	zchar[  
+      // " ++ [27880; 37322]%N ++ runes_of_ascii "
+    10]
+
+    Header
+@calculatedFrom(
+""`tick`"") , 
+repeat chars ,  f32a@calculatedFrom(
+
+    ""packet""
+
+    ) 
+, 
+Header
+	{ 
+roots
+	@calculatedFrom(	""" ++ [28040; 24687]%N ++ runes_of_ascii """
+    )
+,
+}
+,
+}
+,
+
+match
+
+body as  
+      // `tick` ""quote"" 'q'
+	calculatedFrom
+{
+
+    65535
+:calculatedFrom
+
+    00
+:
+
+    i64_	[ ""\n"" 
+,
+""a\""b"" 
+	// c
+
+  // a // b
+  ]  
+  // @lengthOf(
+: 
+a1
+,  
+  // " ++ [128512]%N ++ runes_of_ascii " emoji
+  65535: charz,
+    [ 3
+    ,
+	""" ++ [28040; 24687]%N ++ runes_of_ascii """]
+    : 
+_x
+
+,
+
+""1""
+
+    :
+
+    pack
+	,
+
+    } ,
+
+} 
+,float32	lengthOf
+	`doc`
+    , }
+")).
+Eval vm_compute in ("<<<M305>>>" ++ check (runes_of_ascii "options { i8i8 =
+    // " ++ [27880; 37322]%N ++ runes_of_ascii "
+    float64//
+;
+pack =
+    ""// no comment"" ; len =
+    zchar[ 42 ] ;A
+    = 65535
+    //	t
+    ;
+    BodyLength	= 255
+;
+    }
+root
+packet	uint8x { @tag(
+255 )
+    @calculatedFrom( /// triple
+""a\""b"" ) @leftPad ( ) string
+i64_,} root packet tag
+{char[]
+BodyLength , tag {	repeat zchar[10] roots`" ++ [28040; 24687; 31867; 22411]%N ++ runes_of_ascii "` ,
+} , BodyLength {
+    // `tick` ""quote"" 'q'
+    repeat msg_type
+{zchar[
+    // " ++ [27880; 37322]%N ++ runes_of_ascii "
+    10 ]
+Header @calculatedFrom( ""`tick`"" ) , repeat chars, f32a @calculatedFrom(""packet"") , Header {roots @calculatedFrom( """ ++ [28040; 24687]%N ++ runes_of_ascii """ ) ,
+}  , },match
+    body as
+    // `tick` ""quote"" 'q'
+    calculatedFrom {
+    65535 :calculatedFrom 00 :
+i64_ [ ""\n"" ,""a\""b""
+// c
+// a // b
+]
+    // @lengthOf(
+    :
+a1 ,
+    // " ++ [128512]%N ++ runes_of_ascii " emoji
+    65535 : charz , [ 3
+    ,
+""" ++ [28040; 24687]%N ++ runes_of_ascii """ ] :
+    _x	,""1""
+:
+    pack , },
+    } , float32
+    lengthOf	`doc` ,}
+")).
+Eval vm_compute in ("<<<M1646>>>" ++ check (runes_of_ascii "packet pack {
+    char[] falsey,
+    @lengthOf(zchar)
+    @rightPad()
+    float roots,
+    @calculatedFrom(""// no comment"")
+    i64 u8x,
+    @lengthOf(lengthOf)
+    @leftPad()
+    @tag(4294967296)
+    Packet,
+    match uint8x as Foo {
+        ""abc"" : string_,
+    },
+    Logon {
+        repeat char[65535] matchKey `100% of %d`,
+        zchar[0123456789] leftPad @calculatedFrom(""// no comment""),
+        string len,
+    },// @lengthOf(
+    u64 body @lengthOf(string_),
+    // c
+    Z9_ charz `tab	here`,
+    //x
+}
+
+MetaData u {
+    lengthOf chars `" ++ [28040; 24687; 31867; 22411]%N ++ runes_of_ascii "`,
+    char[007] options1 `100% of %d`,
+    body u8x,
+    float32 body `u8 x,`,
+}
+
+packet T {
+}
+
+packet i8i8 {
+    string packetx,
+    tag falsey,
+}")).
+Eval vm_compute in ("<<<M1777>>>" ++ check (runes_of_ascii "  options
+    { 
+LittleEndian 
+=
+true ;
+StringPrefixLenType
+	=
+u32
+	;ArrayPrefixLenType
+=	u8  ;} packet
+Heartbeat{	string msgKind
+    , }packet
+    Logon{repeat Heartbeat, 
+repeat string  Px,	uint8
+Tail ,
+char[]  f1, }
+    packet Cancel	{
+
+zchar[4 ]
+OrderId	, Logon
+,repeat	InMsgkind98 {
+repeat u8 tag7, repeat InFlags69
+    {
+char[]
+Note 
+,char[]  lastPx ,	char[
+	11	]Ref , Logon
+
+, },
+	repeat Heartbeat
+
+, }
+    ,
+    zchar[7 ]
+Px
+
+    , u32 seqNo
+
+,
+
+    }
+    root  packet Reject
+{ i16
+tag7
+
+,char[  3
+    ]
+
+Qty  ,
+InRef42 {
+u8 pad0,} , uint32
+
+f1  , zchar[ 7
+    ]
+OrderId
+    , zchar[
+8
+
+]
+
+x
+
+    , }
+
+")).
+Eval vm_compute in ("<<<M255>>>" ++ check (runes_of_ascii "packet
+msg_type { @lengthOf(
+trueish
+) @calculatedFrom( //	t
+""packet""
+    ) @rightPad
+( ) trueish
+chars
+    // c
+    ,	}
+root
+packet i64_
+    { } packet	charz
+{// " ++ [128512]%N ++ runes_of_ascii " emoji
+repeat float64 // @lengthOf(
+u8x
+`{ , }`
+    , roots @lengthOf( BodyLength )
+    ``
+,	repeat string
+Header
+    //x
+    , Z9_ @lengthOf(
+    A ) ,
+    @rightPad () repeat len
+`" ++ [233]%N ++ runes_of_ascii "`,
+    float64 Foo @lengthOf( Header  ) ,repeat char[
+0 ] charz// c
+`say ""hi""`, string a1 , @leftPad
+    (
+    '0') metadata
+    { zchar[ 42 ]  i8i8
+    @lengthOf( lengthOf)
+,
+//x
+/// triple
+} ,
+} options	{ }
+")).
+Eval vm_compute in ("<<<M1947>>>" ++ check (runes_of_ascii "MetaData i8i8 {
+    char[00] msg_type `say ""hi""`,
+}// " ++ [128512]%N ++ runes_of_ascii " emoji
+
+MetaData charz {
+    zchar[0] options1,
+}
+
+packet MetaDataX {
+    // packet A { u8 x, }
+    Header u8x `// not a comment`,
+    x rootA,
+    @lengthOf(falsey)
+    @lengthOf(i8i8)
+    match MetaDataX as stringy {
+        [""" ++ [128512]%N ++ runes_of_ascii """, ""a\""b""] : i64_,
+    },
+}
+
+MetaData msg_type {
+    string zchar `doc`,
+    //
+}
+
+MetaData leftPad {
+    uint8 x `crlf
+    line`,
+    i32 msg_type `// not a comment`,
+    char[255] leftPad,// a // b
+    char[] u,//	t
+}")).
+Eval vm_compute in ("<<<M1541>>>" ++ check (runes_of_ascii "packet body {
+    @leftPad('\x00')
+    @tag(42)
+    @tag(65535)
+    repeat tag u `a\`,
+    Z9_,//	t
+    @tag(10)
+    //	t
+    // @lengthOf(
+    f32 msg_type `// not a comment`,
+    int16 matchKey @calculatedFrom(""a	b"") `it's`,
+}
+
+packet T {
+    zchar[7] matchKey,
+    falsey @lengthOf(stringy) `crlf
         line`,
 }
 
-packet _x {
-    zchar[4294967296] Header `
-        `,
-    chars @calculatedFrom(""1""),
-    match As as A {
-        ""`tick`"" : u,
-    },
-    repeat string zchar,
-    repeat packetx {
-        match pack as lengthOf {
-            3 : calculatedFrom,
-            3 : metadata,
-            ""abc"" : falsey,
-            4294967296 : len,
-        },
-        match Packet as repeatCount {
-            [
-                ""a\\"", 1, ""a\\"", 0, ""packet"",
-                ""a	b""
-            ] : f32a,
-            4294967296 : tag,
-            1 : packetx,
-            [
-                ""\n"", 42, 4294967296, ""a	b"", 10,
-                255, 007
-            ] : chars,
-            [
-                ""1"", ""// no comment"", 0, 1, ""`tick`"",
-                3, 42, ""\" ++ [233]%N ++ runes_of_ascii """
-            ] : BodyLength,
-        },// trailing space 
-    },
-    string u8x `" ++ [28040; 24687; 31867; 22411]%N ++ runes_of_ascii "`,
-    repeat f32a {
-        char[7] x_y_z `
-                `,
-    },
+root packet options1 {
+    @calculatedFrom(""{,}"")
+    matchKey @calculatedFrom(""`tick`""),
+    zchar[0] stringy @lengthOf(int),
 }
 
-MetaData Packet {
-    chars u,
-    char[] u8x,
-    // 50% %s
-    // trailing space 
-    x_y_z asx `" ++ [28040; 24687; 31867; 22411]%N ++ runes_of_ascii "`,
-    int8 Header `{ , }`,
-    zchar[4294967296] rootA `u8 x,`,
-    char[] calculatedFrom,
+packet msg_type {
 }")).
-Eval vm_compute in ("<<<M326>>>" ++ check (runes_of_ascii "root packet Logon // packet A { u8 x, }
-{ calculatedFrom calculatedFrom
-    `it's` ,}  packet	calculatedFrom { @rightPad ( )string
-u // a // b
-@calculatedFrom(""packet"" )
-, @leftPad	('\x00')@tag( 1 ) @tag( 3 ) Packet{ string_	pack , As @calculatedFrom( ""a\""b"" ) `doc` , repeat
-msg_type
-    metadata ,
-// trailing space 
-//x
-} , _x
-`" ++ [233]%N ++ runes_of_ascii "` ,
-zchar[
-3
-]  MetaDataX // `tick` ""quote"" 'q'
-, repeat string asx
-`say ""hi""` ,
-    @lengthOf(
-trueish // " ++ [27880; 37322]%N ++ runes_of_ascii "
-)@lengthOf(uint8x
-    )	@rightPad
-    (
-// " ++ [128512]%N ++ runes_of_ascii " emoji
-//
-)char[ 0123456789 ]T`" ++ [28040; 24687; 31867; 22411]%N ++ runes_of_ascii "` ,}/// triple
-packet x { @rightPad ( )
-    @calculatedFrom(// @lengthOf(
-""it's"" )
-@tag(
-    // " ++ [27880; 37322]%N ++ runes_of_ascii "
-    42 ) packetx
-falsey ,  char[ 1] body ,
-    @calculatedFrom( """ ++ [28040; 24687]%N ++ runes_of_ascii """ )tag @calculatedFrom( ""\" ++ [233]%N ++ runes_of_ascii """ ) ,Packet `100% of %d`/// triple
-,
-    //x
-    @tag(255 ) float32
-body @calculatedFrom(
-""abc""
-// packet A { u8 x, }
-// " ++ [27880; 37322]%N ++ runes_of_ascii "
-) ,
-char f32a , @lengthOf( u ) repeat
-    int32 a1	,@tag( 4294967296 )	f32 o @calculatedFrom(
-    ""\n"" )`tab	here` , char[] calculatedFrom  `two words` ,
-calculatedFrom @lengthOf(
-// packet A { u8 x, }
-// trailing space 
-matchKey ) , }
-")).
-Eval vm_compute in ("<<<M1355>>>" ++ check (runes_of_ascii "options {
-    LittleEndian = true;
-    StringPrefixLenType = u8;
-    ArrayPrefixLenType = u8;
-    FixedStringPadFromLeft = true;
-    FixedStringPadChar = '0';
-}
-packet Logon {
-    repeat i8 Ref,
-    @rightPad('0') char[8] msgKind,
-    repeat InOrderid72 {
-        u8 Side2,
-        uint32 Qty,
-        repeat InPrice27 {
-            repeat char[4] Acct,
-            u64 sym,
-        },
-        zchar[4] clOrdID,
-        int16 lastPx,
-        InAcct22 {
-            repeat char[3] OrderId,
-        },
-    },
-    int64 Px,
-}
-packet Fill {
-    uint16 Qty,
-    repeat char[1] Flags,
-    i8 Ref,
-}
-packet Logout {
-    @leftPad('0') char[3] x,
-    int8 f1,
-    Logon,
-    uint16 venue,
-    zchar[2] Px,
-}
-packet Reject {
-}
-root packet Leg {
-    Fill,
-    u16 msgKind,
-    match msgKind as Body {
-        [182, 83] : Fill,
-        199 : Reject,
-        137 : Logout,
-        35 : Logon,
-    },
-    u32 lastPx @calculatedFrom(""CR\
-C32""),
-}
-")).
-Eval vm_compute in ("<<<M1374>>>" ++ check (runes_of_ascii "// top
-options // c0a
-  // c0b
-{ // c1a
-  // c1b
-StringPrefixLenType = // c3
-u16 // c4a
-  // c4b
-; // c5
-ArrayPrefixLenType // c6
-= u64
-    // c8
-; }
-    // c10
-packet // c11
-Order { // c13a
-  // c13b
-float64 Ref // c15a
-  // c15b
-, // c16
-repeat // c17a
-  // c17b
-i32 lastPx // c19
-,
-    // c20
-}
-    // c21
-packet Fill
-    // c23
-{
-    // c24
-zchar[ 9 // c26
-] // c27a
-  // c27b
-Ref
-    // c28
-, // c29
-zchar[ // c30a
-  // c30b
-4 ]
-    // c32
-Px // c33
+Eval vm_compute in ("<<<M1135>>>" ++ check (runes_of_ascii "// top
+packet // c0
+_x // c1
+{ // c2
+match // c3
+Foo // c4
+as // c5
+Z9_ // c6
+{ // c7
+""a	b"" // c8
+: // c9
+Pad // c10
+, // c11
+} // c12
+, // c13
+repeat // c14
+x // c15
+`// not a comment` // c16
+, // c17
+@rightPad // c18
+( // c19
+' ' // c20
+) // c21
+@calculatedFrom( // c22
+""a\\"" // c23
+) // c24
+metadata // c25
+MetaDataX // c26
+, // c27
+@tag( // c28
+0 // c29
+) // c30
+Logon // c31
+int // c32
+`two words` // c33
 , // c34
-Order // c35a
-  // c35b
-, // c36
-int8 // c37
-count // c38
-, // c39a
-  // c39b
-}
-    // c40
-packet // c41a
-  // c41b
-Cancel { // c43
-i16 Side2 // c45
-, // c46
-Order // c47a
-  // c47b
-, // c48
-} root packet // c51
-Party // c52
-{ float64 // c54
-Px , // c56
-zchar[
-    // c57
-1
-    // c58
-] // c59
-clOrdID // c60
-, // c61
-} ")).
-Eval vm_compute in ("<<<M1155>>>" ++ check (runes_of_ascii "options { uint8x
-    // c2
-= // c3
-007 // c4
-;
-    // c5
-lengthOf // c6
-= // c7
-i8 ;
-    // c9
-}
-    // c10
-packet i64_ // c12
-{ // c13
-@calculatedFrom( // c14a
-  // c14b
-""1"" // c15a
-  // c15b
-) // c16
-@tag( // c17
-3 // c18a
-  // c18b
-)
-    // c19
-@lengthOf( // c20a
-  // c20b
-rootA
-    // c21
-) // c22a
-  // c22b
-repeat int8 Packet // c25
-`tab	here` // c26
-, // c27a
-  // c27b
-} // c28
-packet // c29
-_x { // c31a
-  // c31b
-matchKey // c32
-x // c33a
-  // c33b
-`" ++ [28040; 24687; 31867; 22411]%N ++ runes_of_ascii "`
-    // c34
-, // c35
-int32
-    // c36
-calculatedFrom
-    // c37
-`100% of %d` ,
-    // c39
-@lengthOf( // c40a
-  // c40b
-trueish // c41a
-  // c41b
-) // c42
-Packet , repeat f32 o
-    // c47
-, // c48
-}
-    // c49
+} // c35
 ")).
-Eval vm_compute in ("<<<M149>>>" ++ check (runes_of_ascii "options { stringy  =zchar[
-0123456789] }
-    MetaData// trailing space 
-charz{ zchar[
-42 ] calculatedFrom	,
-    // `tick` ""quote"" 'q'
-    char[ 65535 ] // " ++ [27880; 37322]%N ++ runes_of_ascii "
-trueish
-    , float64 // c
-roots
-    `doc`
-,}
-    packet// c
-calculatedFrom // a // b
-{ @calculatedFrom( """ ++ [128512]%N ++ runes_of_ascii """ )string crc `crlf
-line` , MetaDataX { Packet
-@lengthOf( // c
-packetx )`{ , }`, // trailing space 
-repeat trueish As
-    , } ,int64 T,// `tick` ""quote"" 'q'
-match uint8x// trailing space 
-as i64_ {
-00 :
-_x ,
-    65535 :Z9_, ""1"" : u8x
-// c
-// " ++ [27880; 37322]%N ++ runes_of_ascii "
-, 007 : Z9_	, /// triple
-255
-:matchKey ""1"": crc , } ,// " ++ [128512]%N ++ runes_of_ascii " emoji
-} // @lengthOf(")).
-Eval vm_compute in ("<<<M98>>>" ++ check (runes_of_ascii "MetaData
-    //x
-    Pad
-{ u32  u128  `doc`
-// @lengthOf(
-//x
-, char[] len`a\`, Header  tag
-    , u8 repeatCount `tab	here`//	t
-,/// triple
-Pad int, } packet
-    len{
-//x
-/// triple
-As {
-pack
-_x `
-`
-, asx {
-    //
-    string  calculatedFrom
-@lengthOf(
-MetaDataX
-) , stringy u8x, char[
-    255 ] MetaDataX
-@calculatedFrom( """"
-), } ,
-calculatedFrom {string_ len , } ,	Header @lengthOf(
-// c
-//x
-charz ), }
-    ,
-    }
-// " ++ [27880; 37322]%N ++ runes_of_ascii "
-// " ++ [128512]%N ++ runes_of_ascii " emoji
-options {
-// c
-// a // b
-} options
-    { packetx	= ""`tick`""
-    ; /// triple
-i64_	= ' '; }")).
-Eval vm_compute in ("<<<M181>>>" ++ check (runes_of_ascii "  packet // c
-_x{ calculatedFrom@lengthOf(
-roots  ) `it's` ,
-match
-metadata
-as BodyLength {	[
-    10 , 10, ""a\""b""
-    ,""""//	t
+Eval vm_compute in ("<<<M1273>>>" ++ check (runes_of_ascii "// top
+packet // c0
+B // c1
+{
+    // c2
+u8 a // c4
 ,
-""\n""
-,// @lengthOf(
-""a\\"" ,	4294967296 ] : u,
-    },
-    repeat // trailing space 
-i64_
-    Packet// " ++ [128512]%N ++ runes_of_ascii " emoji
-`{ , }` // " ++ [27880; 37322]%N ++ runes_of_ascii "
-,// packet A { u8 x, }
-@tag(
-65535 )char[]
-float
-    `crlf
-line`,char[ 7]
-    /// triple
-    x @calculatedFrom(
-""{,}""
-)
-/// triple
-// a // b
-,
-    @leftPad ( )
-    u64 stringy
-    // c
-    @calculatedFrom( ""\" ++ [233]%N ++ runes_of_ascii """ ) , }packet A	{ }")).
-Eval vm_compute in ("<<<M1655>>>" ++ check (runes_of_ascii "options {
-    LittleEndian = false;
-    StringPrefixLenType = u16;
-    FixedStringPadFromLeft = true;
-    FixedStringPadChar = '0';
-}
-
-packet Fill {
-}
-
-root packet Order {
-    repeat Fill,
-    char[] clOrdID,
-    @rightPad('\x00')
-    char[4] lastPx,
-    char[] OrderId,
-    int8 tag7,
-    u8 f1,
-    u16 count @lengthOf(Body),
-    match f1 as Body {
-        [159, 49] : Fill,
-    },
-    u16 Tail @calculatedFrom(""CR\
-        C32""),
-}")).
-Eval vm_compute in ("<<<M1460>>>" ++ check (runes_of_ascii "packet o {
-    zchar[7] f32a @calculatedFrom(""a\""b""),
-    @lengthOf(pack)
-    options1,
-    @calculatedFrom(""abc"")
-    Header,
-    @lengthOf(Logon)
-    zchar[4294967296] asx @lengthOf(u) `100% of %d`,
-    @leftPad(' ' // trailing space 
-        )
-    @calculatedFrom(""`tick`"")
-    uint16 x_y_z `doc`,
-    @tag(00)
-    zchar[1] u,
-    @calculatedFrom(""a\""b"")
-    //
-    u8x uint8x,
-    char[1] metadata,
-}")).
-Eval vm_compute in ("<<<M1941>>>" ++ check (runes_of_ascii "  options
+    // c5
+} // c6a
+  // c6b
+root
+    // c7
+packet // c8a
+  // c8b
+P // c9a
+  // c9b
+{ u8 K // c12a
+  // c12b
+, // c13
+u64 // c14a
+  // c14b
+L // c15
+@lengthOf( // c16
+Body // c17
+) // c18
+, match // c20a
+  // c20b
+K // c21
+as // c22
+Body { // c24a
+  // c24b
+1 // c25a
+  // c25b
+: // c26
+B , // c28a
+  // c28b
+} , // c30a
+  // c30b
+} // c31a
+  // c31b
+")).
+Eval vm_compute in ("<<<M1977>>>" ++ check (runes_of_ascii "  options
 	{LittleEndian = 
 true
 
@@ -755,542 +882,450 @@ char[ 255
     :o 42  : chars ,} // trailing space 
 ,}
 ")).
-Eval vm_compute in ("<<<M1808>>>" ++ check (runes_of_ascii "
-// packet A { u8 x, }
-root packet
-
-zchar {
-
-@leftPad
-    ( 
-'\x00')
-	repeat
-Logon  BodyLength	,
-@rightPad  (
-	)
-	@calculatedFrom(
-    ""a\""b"" ) @tag( 42
-
-)
-repeat
-	_x MetaDataX
-    // 50% %s
-      ,
-    @leftPad//x
-		(
-
-    '0'
-	)	string
-
-calculatedFrom 
-@calculatedFrom(
-""it's"" ) ,
-	}")).
-Eval vm_compute in ("<<<M361>>>" ++ check (runes_of_ascii "// packet A { u8 x, }
-root packet  zchar { @leftPad
-    ( '\x00' )repeat Logon BodyLength
-, @rightPad (  ) @calculatedFrom(
-""a\""b""
-    )@tag( 42
-)
-repeat _x MetaDataX
-    // 50% %s
-    ,@leftPad //x
-( '0'
-    )string calculatedFrom @calculatedFrom( ""it's"" )
-    ,}")).
-Eval vm_compute in ("<<<M1668>>>" ++ check (runes_of_ascii "
+Eval vm_compute in ("<<<M1288>>>" ++ check (runes_of_ascii "// top
 options
-{ i8i8  = 00	matchKey=
-    4294967296
-
-    msg_type
-=
-
-    ' ' metadata
-=
-4294967296
-
-    } //
-	packet
-    u8x
-
-    {	@tag(
-    4294967296 ) @leftPad(  /// triple
-'0'  )
-
-    @tag(  1
-
-) asx A 
-`// not a comment`
-
-    ,
-	}
-")).
-Eval vm_compute in ("<<<M397>>>" ++ check (runes_of_ascii "packet
-    asx { { @calculatedFrom(
-""""  ) @tag( 255 )repeat
-// packet A { u8 x, }
-// trailing space 
-int16 u8x
-,
-@tag(
-    //
-    007 )
-    @tag( 0
-    /// triple
-    ) @tag( 1) u
-    @lengthOf( T ),
-// `tick` ""quote"" 'q'
-//x
-} // " ++ [128512]%N ++ runes_of_ascii " emoji")).
-Eval vm_compute in ("<<<M1716>>>" ++ check (runes_of_ascii "MetaData packetx {
-    zchar[255] u128 `" ++ [233]%N ++ runes_of_ascii "`,
-}
-
-packet Pad {
-    repeat crc,
-    zchar[10] calculatedFrom `{ , }`,
-}
-
-packet _x {
-    @lengthOf(roots)
-    match Header as metadata {
-        [10] : pack,
-    },
-    char[255] Logon,
-}// a // b")).
-Eval vm_compute in ("<<<M513>>>" ++ check (runes_of_ascii "packet
-    asx { @calculatedFrom(
-""""  ) @tag( 255 )repeat
-// packet A { u8 x, }
-// trailing space 
-int16 u8x
-,
-@tag(
-    //
-    007 )
-    @tag( 0
-    /// triple
-    ) @tag( 1) u
-    @lengthOf( T ,)
-// `tick` ""quote"" 'q'
-//x
-} // " ++ [128512]%N ++ runes_of_ascii " emoji")).
-Eval vm_compute in ("<<<M451>>>" ++ check (runes_of_ascii "packet
-    asx { @calculatedFrom(
-""""  ) @tag( 255 )repeat
-// packet A { u8 x, }
-// trailing space 
-int16 u8x
-,
-
-    //
-    007 )
-    @tag( 0
-    /// triple
-    ) @tag( 1) u
-    @lengthOf( T ),
-// `tick` ""quote"" 'q'
-//x
-} // " ++ [128512]%N ++ runes_of_ascii " emoji")).
-Eval vm_compute in ("<<<M126>>>" ++ check (runes_of_ascii "packet u{ } packet charz { char[
-//
-// " ++ [128512]%N ++ runes_of_ascii " emoji
-255// " ++ [128512]%N ++ runes_of_ascii " emoji
-]options1
-,@calculatedFrom( """") zchar[ //x
-00 ] leftPad
-, char[]  A`it's` ,} options{ i8i8 = '\x00' ;u128
-= ' ' ; options1=42; charz
-    =
-""\n""
-int= true ;}
-")).
-Eval vm_compute in ("<<<M1559>>>" ++ check (runes_of_ascii "MetaData
-    u  { 
-}MetaData
-	o {	uint8x
-	float
-	`100% of %d`
-, 
-repeatCount
-u8x ,
-
-    string_
-
-    leftPad
-    , i32 Foo ,  int64
-    x `two words`
-
-    ,
-	calculatedFrom  stringy `a\`
-
-, }
-")).
-Eval vm_compute in ("<<<M1566>>>" ++ check (runes_of_ascii "packet
-	_x
-
-{ @calculatedFrom( ""packet"")
-    char[]
-	T  `" ++ [28040; 24687; 31867; 22411]%N ++ runes_of_ascii "`
-,@calculatedFrom(
-""" ++ [28040; 24687]%N ++ runes_of_ascii """	) f64
-
-    pack `" ++ [233]%N ++ runes_of_ascii "`
-
-    ,
-@calculatedFrom(
-
-""a	b"" 
+    // c0
+{ // c1a
+  // c1b
+LittleEndian // c2
+= // c3a
+  // c3b
+true ; } root // c7
+packet
+    // c8
+P // c9a
+  // c9b
+{
+    // c10
+u16 // c11a
+  // c11b
+a // c12a
+  // c12b
+, // c13
+u32 Sum // c15a
+  // c15b
+@calculatedFrom( // c16a
+  // c16b
+""CRC32""
+    // c17
+) // c18
+, } ")).
+Eval vm_compute in ("<<<M1279>>>" ++ check (runes_of_ascii "packet B // c1a
+  // c1b
+{
+    // c2
+u8 // c3
+a // c4
+, string // c6a
+  // c6b
+s , } root // c10a
+  // c10b
+packet
+    // c11
+P // c12a
+  // c12b
+{ // c13
+u16 // c14
+L @lengthOf( // c16
+B // c17a
+  // c17b
 )
-	repeat  crc
-
-`100% of %d`	//
-
+    // c18
+, // c19
+B , // c21
+u8 t , } // c25a
+  // c25b
+")).
+Eval vm_compute in ("<<<M432>>>" ++ check (runes_of_ascii "packet
+    asx { @calculatedFrom(
+""""  ) @tag( 255 )repeat repeat
+// packet A { u8 x, }
+// trailing space 
+int16 u8x
 ,
+@tag(
+    //
+    007 )
+    @tag( 0
+    /// triple
+    ) @tag( 1) u
+    @lengthOf( T ),
+// `tick` ""quote"" 'q'
+//x
+} // " ++ [128512]%N ++ runes_of_ascii " emoji")).
+Eval vm_compute in ("<<<M469>>>" ++ check (runes_of_ascii "packet
+    asx { @calculatedFrom(
+""""  ) @tag( 255 )repeat
+// packet A { u8 x, }
+// trailing space 
+int16 u8x
+,
+@tag(
+    //
+    007 )
+    float64 0
+    /// triple
+    ) @tag( 1) u
+    @lengthOf( T ),
+// `tick` ""quote"" 'q'
+//x
+} // " ++ [128512]%N ++ runes_of_ascii " emoji")).
+Eval vm_compute in ("<<<M418>>>" ++ check (runes_of_ascii "packet
+    asx { @calculatedFrom(
+""""  ) 255 @tag( )repeat
+// packet A { u8 x, }
+// trailing space 
+int16 u8x
+,
+@tag(
+    //
+    007 )
+    @tag( 0
+    /// triple
+    ) @tag( 1) u
+    @lengthOf( T ),
+// `tick` ""quote"" 'q'
+//x
+} // " ++ [128512]%N ++ runes_of_ascii " emoji")).
+Eval vm_compute in ("<<<M396>>>" ++ check (runes_of_ascii "packet
+    asx  @calculatedFrom(
+""""  ) @tag( 255 )repeat
+// packet A { u8 x, }
+// trailing space 
+int16 u8x
+,
+@tag(
+    //
+    007 )
+    @tag( 0
+    /// triple
+    ) @tag( 1) u
+    @lengthOf( T ),
+// `tick` ""quote"" 'q'
+//x
+} // " ++ [128512]%N ++ runes_of_ascii " emoji")).
+Eval vm_compute in ("<<<M1965>>>" ++ check (runes_of_ascii "packet Sub {
+    u8 a,
+    @calculatedFrom(""CRC16"")
+    i64 SubSum,
 }
 
+root packet Frame {
+    u16 MsgType,
+    u16 BodyLen @lengthOf(Body),
+    Sub Body,
+    string note,
+    @calculatedFrom(""CRC16"")
+    i64 Checksum,
+    u8 tail,
+}")).
+Eval vm_compute in ("<<<M148>>>" ++ check (runes_of_ascii "packet zchar
+    {
+@lengthOf(
+charz
+    ) zchar @lengthOf(Header ) `
+`
+    , u8 calculatedFrom ,	@calculatedFrom(  ""x y""	) u128 @calculatedFrom( ""it's""  )
+    ,  }options {float=	007
+    uint8x =
+""`tick`"" ;  }
 ")).
-Eval vm_compute in ("<<<M302>>>" ++ check (runes_of_ascii "MetaData o	{ } MetaData
-Header{  repeatCount matchKey  ,}
-packet	As{// c
-@tag(0123456789 ) char[]
-    //	t
-    tag
+Eval vm_compute in ("<<<M202>>>" ++ check (runes_of_ascii "packet
+leftPad
+//
+// " ++ [27880; 37322]%N ++ runes_of_ascii "
+{ string_
+u , match
+u as crc { [ ""a\\""
+    ]: f32a
+// 50% %s
+//
+,  [ 7 ]: chars,0 : //	t
+packetx// @lengthOf(
+,  } ,
+    @calculatedFrom(""// no comment"" )u64 tag
+, }")).
+Eval vm_compute in ("<<<M1552>>>" ++ check (runes_of_ascii "
+MetaData u  { 
+}	MetaData
+o
+{
+	float uint8x `100% of %d`,u8x
+repeatCount	,
+
+    string_	leftPad  ,
+	i32 Foo, int64 x`two words`  ,
+	calculatedFrom stringy `a\`
+
+    , }
+")).
+Eval vm_compute in ("<<<M722>>>" ++ check (runes_of_ascii "packet
+crc
+{repeat  Foo A  `u8 x,` ,	@lengthOf( uint8x ) string
+matchKey @lengthOf( stringy ) ) `a\`
 ,
-    @calculatedFrom(
-""x y""
-) crc
-    `it's` ,
+    // c
     }
-")).
-Eval vm_compute in ("<<<M562>>>" ++ check (runes_of_ascii "MetaData u
-    { } } MetaData o
+MetaData chars{
+leftPad
+    //	t
+    crc
+`" ++ [233]%N ++ runes_of_ascii "`
+,}")).
+Eval vm_compute in ("<<<M693>>>" ++ check (runes_of_ascii "MetaData u
+    { } MetaData o
 { float uint8x
+`100% of %d` ,repeatCount u8x, string_ leftPad
+, i32
+    Foo , int64 x `two words` , calculatedFrom
+stringy @x`a\` ,
+}
+")).
+Eval vm_compute in ("<<<M599>>>" ++ check (runes_of_ascii "MetaData u
+    { } MetaData o
+{ float uint8x
+`100% of %d` )repeatCount u8x, string_ leftPad
+, i32
+    Foo , int64 x `two words` , calculatedFrom
+stringy `a\` ,
+}
+")).
+Eval vm_compute in ("<<<M641>>>" ++ check (runes_of_ascii "MetaData u
+    { } MetaData o
+{ float uint8x
+`100% of %d` ,repeatCount u8x, string_ leftPad
+, i32
+    Foo  int64 x `two words` , calculatedFrom
+stringy `a\` ,
+}
+")).
+Eval vm_compute in ("<<<M586>>>" ++ check (runes_of_ascii "MetaData u
+    { } MetaData o
+{ float 
 `100% of %d` ,repeatCount u8x, string_ leftPad
 , i32
     Foo , int64 x `two words` , calculatedFrom
 stringy `a\` ,
 }
 ")).
-Eval vm_compute in ("<<<M1939>>>" ++ check (runes_of_ascii "  packet A 
-{
-	match
+Eval vm_compute in ("<<<M1310>>>" ++ check (runes_of_ascii "packet A {
+    u8 a,
+}
+packet B {
+    u16 b,
+}
+root packet P {
+    u8 K,
+    match K as M {
+        [1, 2] : A,
+        3 : B,
+        7 : A,
+    },
+}
+")).
+Eval vm_compute in ("<<<M1786>>>" ++ check (runes_of_ascii "packet
+A {match
+
 k
-as
+    as n	{ [
+    ""a"" 
+, ""bb""
+	, ""c c""
+	, ""d""
+, ""e""
+	, ""f"",
 
-    n  {
-	[
-    ""a"" , ""bb""
-	, ""c c"" ,
-	""d""
-
-, 
-""e""
-
-, 
-""f"" , ""g"",
-
-    ""h""	, ""i""
-
-,
-
+""g"" ,
+""h"" ,  ""i"",
 ""j""
-	,	""k"", ""l"" ] 
-:
-	B
-
-2 :
-
-    C
-
-    },}
-")).
-Eval vm_compute in ("<<<M678>>>" ++ check (runes_of_ascii "MetaData u
-    { } MetaData o
-{ float uint8x
-`100% of %d` ,repeatCount u8x, string_ leftPad
-, i32
-    Foo , int64 x `two words` , calculatedFrom
-stringy , `a\`
-}
-")).
-Eval vm_compute in ("<<<M1312>>>" ++ check (runes_of_ascii "
-packet  A
-{	u8 a
-,
-	}  packet  B { u16
-	b,} root 
-packet
-	P
-{ u8
-
-K  ,
-match
-
-    K as M
-{[1 ,
-	2  ]
-: A
-
-,  3
-
-    :
-    B, 
-7  :
-A
-    ,  },
-
-    }
-
-")).
-Eval vm_compute in ("<<<M203>>>" ++ check (runes_of_ascii "options { Foo
-    =true len = '0' ; metadata
-=
-    u32
-;repeatCount =42
-}
-MetaData lengthOf {}
-    options {options1
-= zchar[
-    0123456789  ] } // " ++ [27880; 37322]%N)).
-Eval vm_compute in ("<<<M1708>>>" ++ check (runes_of_ascii "
-packet
-
-A
-    { 
-Inner{
-match k
-as
-    n
-
-    {
-
-[1 , 22
-,
-
-007
-,
-    4 , 5
-,
-66
-
-, 7
 	,
 
-    8
-    ,9 , 
-10  , 11 
-] 
-: 
-B, }
-    , } , }
+    ""k""  ]
+	:
+B ,
+2:C
+	} ,
+} ")).
+Eval vm_compute in ("<<<M1281>>>" ++ check (runes_of_ascii "options {
+    LittleEndian = true;
+}
+packet B {
+    u8 a,
+    string s,
+}
+root packet P {
+    u16 L @lengthOf(B),
+    B,
+    u8 t,
+}
 ")).
-Eval vm_compute in ("<<<M1530>>>" ++ check (runes_of_ascii "
-packet A	{ match
-k	as
-
-n
+Eval vm_compute in ("<<<M85>>>" ++ check (runes_of_ascii "
+MetaData metadata
 {
-[
-    ""a""
-,
-""bb""
-
-, 007
-
-    , ""d""  ,
-	""e"" ,
-
-66
-, ""g"", ""h""	,
-
-9
-	,	""j"",
-
-""k""  , 12]	:	B 2	:C 
-}
-
-,  } ")).
-Eval vm_compute in ("<<<M281>>>" ++ check (runes_of_ascii "packet lengthOf{
-len charz `it's`, }options
-{ } packet metadata {string Pad @calculatedFrom( """ ++ [128512]%N ++ runes_of_ascii """)
-    `crlf
-line` , } // " ++ [128512]%N ++ runes_of_ascii " emoji")).
-Eval vm_compute in ("<<<M1604>>>" ++ check (runes_of_ascii "packet asx {
-    f32 u @calculatedFrom(""packet""),
-}
-
-MetaData tag {
-    zchar[007] pack,
-    zchar[00] len `
-        `,
+u64 charz	`crlf
+line`  , int64 options1	, } options
+{ tag = ""CRC32""
+    // " ++ [27880; 37322]%N ++ runes_of_ascii "
+    ; u8x
+    ='\x00' }")).
+Eval vm_compute in ("<<<M983>>>" ++ check (runes_of_ascii "packet A {
+    match k as n {
+        ""x\
+y"" : B,
+        [""x\
+y"", 1] : C,
+        [1,2,3,4,5,""x\
+y""] : D,
+    },
 }")).
-Eval vm_compute in ("<<<M1845>>>" ++ check (runes_of_ascii "
-
-  packet A  {
-	match 
-k	as
-	n
-
-    { [
-	1
-
-, 22 
-,
-	""c c""
-,
-    4 , 5,  ""f"" 
-]
-
-:
-B
-
-    , 2	:
-	C
-}
-	,
-}
-")).
-Eval vm_compute in ("<<<M1231>>>" ++ check (runes_of_ascii "options { } options { MetaDataX = char ; } MetaData Pad { i8 metadata // c
-, string stringy , int8 As `{ , }` , }")).
-Eval vm_compute in ("<<<M450>>>" ++ check (runes_of_ascii "packet
-    asx { @calculatedFrom(
-""""  ) @tag( 255 )repeat
-// packet A { u8 x, }
-// trailing space 
-int16 u8x")).
-Eval vm_compute in ("<<<M971>>>" ++ check (runes_of_ascii "packet A {
-    u16 len @lengthOf(body) `%`,
-    u32 crc @calculatedFrom(""CRC32"") `%`,
-    string body,
-}")).
-Eval vm_compute in ("<<<M882>>>" ++ check (runes_of_ascii "packet A {
+Eval vm_compute in ("<<<M1222>>>" ++ check (runes_of_ascii "options { } options { MetaDataX = char ; }
+// c
+MetaData Pad { i8 metadata , string stringy , int8 As `{ , }` , }")).
+Eval vm_compute in ("<<<M891>>>" ++ check (runes_of_ascii "packet A {
   match k as n {
-    [""a"", 22, ""c c"", 4, ""e"", 66, ""g"", 8, ""i"", 10] : B,
+    [""a"", ""bb"", ""c c"", ""d"", ""e"", ""f"", ""g"", ""h"", ""i"", ""j"", ""k""] : B,
     2 : C
   },
 }")).
-Eval vm_compute in ("<<<M1721>>>" ++ check (runes_of_ascii "  packet Foo
-    {
-	float64
-a1 , 
-string
-
-Z9_ @lengthOf( Logon)
-`line1
-line2` , } 
-// " ++ [128512]%N ++ runes_of_ascii " emoji
-")).
-Eval vm_compute in ("<<<M840>>>" ++ check (runes_of_ascii "packet A {
-  match k as n {
-    [""a"", ""bb"", ""c c"", ""d"", ""e"", ""f"", ""g""] : B
-    2 : C
-  },
-}")).
-Eval vm_compute in ("<<<M1865>>>" ++ check (runes_of_ascii "packet	A
-	{	u16 // a
-	len// b
-  @lengthOf(  // c
-body  // d
-  	)	// e
-`d`  // f
-	,
-
-}")).
-Eval vm_compute in ("<<<M835>>>" ++ check (runes_of_ascii "packet A {
-  match k as n {
-    [""a"", ""bb"", 007, ""d"", ""e"", 66] : B
-    2 : C
-  },
-}")).
-Eval vm_compute in ("<<<M822>>>" ++ check (runes_of_ascii "packet A {
-  match k as n {
-    [""a"", ""bb"", 007, ""d"", ""e""] : B
-    2 : C
-  },
-}")).
-Eval vm_compute in ("<<<M57>>>" ++ check (runes_of_ascii "options {
-asx =""{,}"" } MetaData
-    len
-    { char[] Packet`say ""hi""` , }
-")).
-Eval vm_compute in ("<<<M349>>>" ++ check (runes_of_ascii "// `tick` ""quote"" 'q'
-options	{ stringy=""\" ++ [233]%N ++ runes_of_ascii """float= """ ++ [233]%N ++ runes_of_ascii "t" ++ [233]%N ++ runes_of_ascii """ trueish= u8 }
-")).
-Eval vm_compute in ("<<<M1598>>>" ++ check (runes_of_ascii "
-
-  MetaData i64_
-    {
-	zchar[	// " ++ [27880; 37322]%N ++ runes_of_ascii "
-    0123456789
-]i8i8	`" ++ [233]%N ++ runes_of_ascii "` ,  }
-")).
-Eval vm_compute in ("<<<M1268>>>" ++ check (runes_of_ascii "root packet
-    P
-
+Eval vm_compute in ("<<<M179>>>" ++ check (runes_of_ascii "packet MetaDataX//	t
+{ chars @lengthOf(  lengthOf
+    ) `" ++ [233]%N ++ runes_of_ascii "`,
+repeat int64 o	,
+    }	MetaData matchKey { }")).
+Eval vm_compute in ("<<<M1798>>>" ++ check (runes_of_ascii "packet  A
 {
 
-    hdr  {
+    match 
+k
+as n	{
 
-u8 a
-	, }
-,  u8
+    [	""a""
+,
 
-x
-    ,}
+    22 , ""c c""  , 4 
+]	: 
+B , 
+2  :
+	C} ,
+}
+
 ")).
-Eval vm_compute in ("<<<M440>>>" ++ check (runes_of_ascii "packet
-    asx { @calculatedFrom(
-""""  ) @tag( 255 )repeat")).
-Eval vm_compute in ("<<<M1969>>>" ++ check (runes_of_ascii "
+Eval vm_compute in ("<<<M223>>>" ++ check (runes_of_ascii "// trailing space 
+packet tag	{
+//
+// 50% %s
+@calculatedFrom(
+""abc""
+)char[ 0] crc
+`u8 x,`
+, }
+")).
+Eval vm_compute in ("<<<M839>>>" ++ check (runes_of_ascii "packet A {
+  match k as n {
+    [""a"", ""bb"", ""c c"", ""d"", ""e"", ""f"", ""g""] : B,
+    2 : C
+  },
+}")).
+Eval vm_compute in ("<<<M178>>>" ++ check (runes_of_ascii "packet trueish { @leftPad (
+' ' )
+@lengthOf( A
+)// c
+@lengthOf(
+A )string
+msg_type
+,}
+")).
+Eval vm_compute in ("<<<M1478>>>" ++ check (runes_of_ascii "packet A {
+    match k as n {
+        [1, 22, ""c c"", 4] : B,
+        2 : C,
+    },
+}")).
+Eval vm_compute in ("<<<M1284>>>" ++ check (runes_of_ascii "options {
+    FixedStringPadFromLeft = true;
+}
+root packet P {
+    char[4] z,
+}
+")).
+Eval vm_compute in ("<<<M769>>>" ++ check (runes_of_ascii "'\x00' , root ] match int64 repeat } ] `line1
+line2` @tag( @calculatedFrom(")).
+Eval vm_compute in ("<<<M10>>>" ++ check (runes_of_ascii "
+options {
+string_ =
+char[
+    7 ] ; trueish	= false ; crc=
+char[] ;}")).
+Eval vm_compute in ("<<<M1106>>>" ++ check (runes_of_ascii "packet A { match k as n { [ // a
+ 1 // b
+ , // c
+ 2 ] // d
+ : B }, }")).
+Eval vm_compute in ("<<<M1900>>>" ++ check (runes_of_ascii "
 root
-packet	P
+packet 
+P
 
     {
-char 
-c
-    ,  u8  x ,
-}
-")).
-Eval vm_compute in ("<<<M1487>>>" ++ check (runes_of_ascii "
+	hdr {u8
 
-  MetaData M { } 	 // c
-options  {
+a, } 
+,
+u8 
+x
 
-    } ")).
-Eval vm_compute in ("<<<M301>>>" ++ check (runes_of_ascii "MetaData matchKey{ int64
-    Packet ,} 	 ")).
-Eval vm_compute in ("<<<M1094>>>" ++ check (runes_of_ascii "MetaData M {
-}// c
-MetaData N {
-}// d")).
-Eval vm_compute in ("<<<M365>>>" ++ check (runes_of_ascii "
-MetaData x_y_z {// c
-Pad roots , }")).
-Eval vm_compute in ("<<<M1712>>>" ++ check (runes_of_ascii "packet A {
-    u8 x `d" ++ [8202]%N ++ runes_of_ascii "`,// c" ++ [8202]%N ++ runes_of_ascii "
+    ,  } ")).
+Eval vm_compute in ("<<<M774>>>" ++ check (runes_of_ascii "packet A {
+  match k as n {
+    [""a""] : B
+    2 : C
+  },
 }")).
-Eval vm_compute in ("<<<M921>>>" ++ check (runes_of_ascii "packet A {
+Eval vm_compute in ("<<<M1754>>>" ++ check (runes_of_ascii "
+options 
+{
+
+    a	=	1 	 // c
+
+  b = 2;// d
+    }
+")).
+Eval vm_compute in ("<<<M425>>>" ++ check (runes_of_ascii "packet
+    asx { @calculatedFrom(
+""""  ) @tag(")).
+Eval vm_compute in ("<<<M420>>>" ++ check (runes_of_ascii "packet
+    asx { @calculatedFrom(
+""""  )")).
+Eval vm_compute in ("<<<M1932>>>" ++ check (runes_of_ascii "packet A {
     u8 x `a
-b`,
+    
+    b`,
 }")).
-Eval vm_compute in ("<<<M1410>>>" ++ check (runes_of_ascii "  // c" ++ [8239]%N ++ runes_of_ascii "
-  packet A
-{  }
+Eval vm_compute in ("<<<M1419>>>" ++ check (runes_of_ascii "options {
+    A = ""// no comment""
+}")).
+Eval vm_compute in ("<<<M1474>>>" ++ check (runes_of_ascii "  packet
 
+A{ 
+} 
+        // c" ++ [8232]%N ++ runes_of_ascii "
 ")).
-Eval vm_compute in ("<<<M90>>>" ++ check (runes_of_ascii "
-packet Packet {
-} 	 ")).
-Eval vm_compute in ("<<<M1061>>>" ++ check (runes_of_ascii "// c 	
-packet A {
+Eval vm_compute in ("<<<M1067>>>" ++ check (runes_of_ascii "packet A {
+ u8 x `d" ++ [8203]%N ++ runes_of_ascii "`, // c" ++ [8203]%N ++ runes_of_ascii "
 }")).
-Eval vm_compute in ("<<<M1065>>>" ++ check (runes_of_ascii "packet A {
+Eval vm_compute in ("<<<M927>>>" ++ check (runes_of_ascii "packet A {
+    u8 x `
+`,
+}")).
+Eval vm_compute in ("<<<M1149>>>" ++ check (runes_of_ascii "root packet a1 { // c
+}")).
+Eval vm_compute in ("<<<M1060>>>" ++ check (runes_of_ascii "packet A {
 }
-// c" ++ [8203]%N)).
-Eval vm_compute in ("<<<M1165>>>" ++ check (runes_of_ascii "// c
-packet x { }")).
-Eval vm_compute in ("<<<M751>>>" ++ check (runes_of_ascii "v" ++ [65533; 65533]%N ++ runes_of_ascii "]" ++ [65533]%N ++ runes_of_ascii "P" ++ [4; 65533]%N ++ runes_of_ascii "&" ++ [65533; 65533]%N ++ runes_of_ascii "R")).
-Eval vm_compute in ("<<<M1069>>>" ++ check (runes_of_ascii "// c" ++ [65279]%N)).
+// c 	")).
+Eval vm_compute in ("<<<M1058>>>" ++ check (runes_of_ascii "packet A {
+}// c 	")).
+Eval vm_compute in ("<<<M1073>>>" ++ check (runes_of_ascii "packet A {
+}// c" ++ [6158]%N)).
+Eval vm_compute in ("<<<M350>>>" ++ check (runes_of_ascii "options { }
+")).
+Eval vm_compute in ("<<<M1044>>>" ++ check (runes_of_ascii "// c" ++ [8287]%N)).
